@@ -55,6 +55,7 @@ def run(ctx):
     rule_def(ctx, cr)
     rule_h(ctx, cr)
     rule_no_fastpath(ctx, cr)
+    rule_renum_from(ctx, cr)
     ctx.rule("C14.i", "the columns RENUM splices at are the parser's columns, which advance by the "
              "character count of each token's LISTED text (shared with C19.b): a token measured "
              "differently from how it lists shifts every later operand of the line")
@@ -379,6 +380,25 @@ def _roots_of_local(f, l, depth, seen):
         else:
             out.add(("other", d[0]))
     return out
+
+
+def rule_renum_from(ctx, cr):
+    """Listing::renum renumbers exactly the lines with number >= old_start"""
+    f = cr.need_fn("mach::listing::Listing::renum")
+    ins = [c for c in f.calls_matching(r"HashMap::<K, V, S, A>::insert$")]
+    ok = False
+    seen = []
+    for c in ins:
+        for op, l, r, truth in f.cmp_conds_at(c.bb):
+            if f.describe(r) == "arg:3":          # old_start
+                seen.append((op, truth))
+                if (op, truth) in (("Ge", True), ("Lt", False)):
+                    ok = True
+    ctx.check(ok, "C14.f", "renum/from-old-start-inclusive", f.span,
+              "a line is given a new number when its number >= old-start",
+              "the renumbering decision compares the line number with old-start by %s (expected "
+              ">=): the line numbered exactly old-start keeps its number and its references "
+              "while everything after it moves" % seen)
 
 
 def rule_no_fastpath(ctx, cr):
